@@ -11,7 +11,8 @@ CONSTANTS Depth,
           FullParams,   \* parameters exercised with the full alphabet
           LiteParams,   \* parameters exercised with a small alphabet (isolation)
           GenConns,     \* connections that start unsubscribed and activate during the history
-          GenDefaults   \* default values explored (subset of Vals)
+          GenDefaults,  \* default values explored (subset of Vals)
+          GenLiteOmit   \* suppression windows explored for the LiteParams
 VARIABLE hist
 
 Obs == [c |-> [p \in Params |-> CV(cache'[p])], o |-> out']
@@ -21,13 +22,14 @@ WritePairs == {<<v, v>> : v \in Vals} \cup {<<"a", "b">>}
 Alphabet ==
     UNION {{op \in OpsOf(p) : (op.a = "Write" => <<op.x, op.y>> \in WritePairs) /\ op.a # "AssignInvalid"}
            : p \in FullParams} \cup
-    UNION {{op \in OpsOf(p) : (op.a = "ReadOk" /\ op.x = "a") \/ (op.a = "ReadRaise" /\ op.x = "e1")} : p \in LiteParams} \cup
+    UNION {{op \in OpsOf(p) : op.a = "ReadOk" /\ op.x = "a"} : p \in LiteParams} \cup
     {op \in ActOps : op.p \in GenConns}
 TickOp(n) == [a |-> "Tick", p |-> "-", x |-> "-", y |-> "-", n |-> n]
 
 GInit == /\ Init
          /\ sub = [c \in Conns |-> IF c \in GenConns THEN {} ELSE {"all"}]
          /\ \A p \in Params : cache[p].val \in GenDefaults
+         /\ \A p \in LiteParams : omit[p] \in GenLiteOmit
          /\ hist = <<[op |-> [a |-> "Init", p |-> "-", x |-> "-", y |-> "-", n |-> 0],
                       omit |-> omit, sub |-> sub, nodefault |-> NoDefault,
                       c |-> [p \in Params |-> CV(cache[p])]]>>
